@@ -26,6 +26,16 @@ for pid in sorted(props.PROPS):
         "technique": t.get("technique", "bounded symbolic execution of the real code: Kani 0.68 harnesses over kani::any() inputs, decided by CBMC 6.11 + CaDiCaL, unwinding assertions on"),
     })
 
+for pid, (eng, q, t) in sorted(getattr(props, "EXTRA_CHECKS", {}).items()):
+    tx = TEXT[pid]
+    checks.append({
+        "property_id": pid, "quick_cmd": q, "thorough_cmd": t, "evidence_file": f"evidence/{pid}.json",
+        "engine": eng, "level_claimed": {"category": "model_checking", "text": tx["level_text"], "design_ref": tx["design_ref"]},
+        "level_note": tx["level_note"], "technique": tx["technique"],
+    })
+checks.sort(key=lambda c: c["property_id"])
+claimed = {c["property_id"] for c in checks}
+
 man = {
     "version": 1,
     "setup_cmd": "./setup.sh",
@@ -37,11 +47,13 @@ man = {
         "add_only": True,
     },
     "engines": [
+        {"name": "gate-smt", "path": "gate/extract.py", "serves_properties": ["C14"],
+         "kind_free_text": "source-level extraction of the upgrade gate into SMT-LIB, decided by z3 4.8.12 and cvc5 1.0 (must agree); counterexamples replayed against the real hyper Service"},
         {"name": "kani-cbmc", "path": "lib/vdriver.py", "serves_properties": sorted(p for p in props.PROPS if TEXT[p].get("engine", "kani-cbmc") == "kani-cbmc"),
          "kind_free_text": "bounded symbolic execution of the real crates (Kani 0.68 -> goto program -> CBMC 6.11 / CaDiCaL); one harness = one step or case; the verdict is the solver's, over all symbolic inputs within the stated bounds; counterexamples are replayed natively against the real dependency stack before being reported"},
     ],
     "checks": checks,
-    "not_applicable": [{"property_id": k, "reason": v} for k, v in sorted(NA.items()) if k not in props.PROPS],
+    "not_applicable": [{"property_id": k, "reason": v} for k, v in sorted(NA.items()) if k not in claimed],
     "notes": "Exit codes of ./check: 0 held (KNOWN-FINDING lines possible), 1 replayed violation, 2 inconclusive (harness no longer compiles against the tree, bound too small, out of memory/time, non-reproducing counterexample). See DESIGN.md.",
 }
 (VERIF / "MANIFEST.json").write_text(json.dumps(man, indent=1) + "\n")
